@@ -1,15 +1,15 @@
 #!/bin/sh
-# Runs every seeded change (seeded/, seeded2/, seeded3/, seeded4/, seeded5/: rounds 1-5) against
+# Runs every seeded change (seeded/, seeded2/, seeded3/, seeded4/, seeded5/, seeded6/: rounds 1-6) against
 # the check of its own property and writes seeded/MATRIX.txt.  /repo is patched and restored for each
 # one; do not run other checks meanwhile.
 cd /verif
 export VERIF_EVIDENCE_DIR=/verif/.cache/seed_evidence; mkdir -p $VERIF_EVIDENCE_DIR
 OUT=${MATRIX_OUT:-seeded/MATRIX.txt}
 : > $OUT.tmp
-for d in seeded/C* seeded2/C* seeded3/A* seeded4/B* seeded5/D*; do
+for d in seeded/C* seeded2/C* seeded3/A* seeded4/B* seeded5/D* seeded6/E*; do
   id=$(basename $d)
   round=$(dirname $d)
-  case $id in A*|B*|D*) id=$(python3 -c "import json;print(json.load(open('/verif/$d/meta.json'))['property'])");; esac
+  case $id in A*|B*|D*|E*) id=$(python3 -c "import json;print(json.load(open('/verif/$d/meta.json'))['property'])");; esac
   git -C /repo apply /verif/$d/patch.diff || { echo "$round $(basename $d) patch-does-not-apply" >> $OUT.tmp; continue; }
   line=$(python3 tools/check.py $id 2>&1 | grep -E "^(OK|VIOLATION)" | tr '\n' ' ')
   git -C /repo checkout -- .
